@@ -1,6 +1,10 @@
 """C03 — Span handles drive their collector through a well-formed, balanced protocol.
 
 Leg A: theorems of coq/theories/Properties/C03.v over SpanApi/Model.v (all programs, by an invariant).
+Leg T: translators/span_shapes.py reads the per-method collector-call shapes of span.rs / instrument.rs / tracing-futures /
+       span! into coq/gen/Gen_span.v on every run; C03_source_shapes (generated table = the table SpanApi/Shapes.v's
+       interpreter turns into the model's micro-actions, C03_compile_from_shapes) is part of leg A; the rows that differ
+       are named by evaluating ShapeSyntax.differing_rows.
 Leg B: correspondence: seeded random span-API programs (data) are interpreted through the REAL tracing /
        tracing-futures API by harness/spanapi/h_spanapi (one OS thread per program thread, recording
        collectors) and by the model (`observe`, vm_compute); per op the appended collector calls, the id of the
@@ -10,9 +14,13 @@ Leg C: oracle = the property's log predicates evaluated in Python on the impleme
 import glob
 import json
 import os
+import sys
 
 import vlib
-from vlib import Report, coq_prove, cargo_build, run_bin, coq_eval
+from vlib import Report, coq_prove, cargo_build, run_bin, coq_eval, gen_if_changed
+
+sys.path.insert(0, os.path.join(vlib.VERIF, "translators"))
+import span_shapes  # noqa: E402
 
 (NEW, CLONE, CURRENT, ORCURRENT, DROP, ENTER, DROPGUARD, ENTERED, EXITOWNED, SCOPEBEGIN, SCOPEEND, RECORD, FOLLOWS,
  INSTRUMENT, POLLBEGIN, POLLEND, INTOINNER, SETDEFAULT, CLOSESCOPE, QUERY, INNERACCESS, SWAP, CLONEFUT, WITHCOLL) = range(24)
@@ -529,7 +537,8 @@ def run(ctx):
                 "future dropped between polls OR a collector call made while the thread's default was a different collector / none "
                 "OR a handle consumed on one thread while its span is entered on another); distinct = distinct op lists")
     rep.trusted_base = [
-        "Coq 8.16.1 kernel + vm_compute", "harness h_spanapi.rs (recording Collect impl, re-entrant op loops, ownership validator)",
+        "Coq 8.16.1 kernel + vm_compute", "translators/span_shapes.py + rsparse.py (statement-level shape reading; fails closed to "
+        "SUnrecognised)", "harness h_spanapi.rs (recording Collect impl, re-entrant op loops, ownership validator)",
         "Python generator / differ / oracle (driver/props/c03.py)", "rustc's borrow checker and Send/Sync checks are represented by "
         "SpanApi.Model.compile (hand-written; mirrored by the harness validator and the generator, three-way compared on every case)",
         "std: drop order, catch_unwind, thread_local, mpsc; pin-project-lite"]
@@ -540,8 +549,33 @@ def run(ctx):
         "default-collector scopes are closed innermost-first (out-of-order DefaultGuard drops are C02's subject)",
         "a thread does not open / close default-collector scopes of its own while it is inside the poll of a WithDispatch-wrapped "
         "future (the wrapper's DefaultGuard sits in that stack frame; out-of-order DefaultGuard drops are C02's subject)"]
+    # ---- leg T: the collector-call shapes, read off the source
+    text, unrec = span_shapes.main(ctx.repo, None)
+    gen_if_changed(os.path.join(vlib.COQ, "gen", "Gen_span.v"), text)
+    rep.tie("translator:Gen_span (every statement of the span / guard / Instrumented / WithDispatch methods and of span! recognised)",
+            not unrec, "; ".join(unrec[:4]), unrec[:1] or None)
+    rows_ok, bad_rows = False, None
+    try:
+        rc, out = vlib.coq_make(["theories/SpanApi/Shapes.vo", "gen/Gen_span.vo"], timeout=600)
+        if rc != 0:
+            raise RuntimeError(vlib.last_error(out))
+        bad_rows = coq_eval(ctx, "From Coq Require Import NArith List String.\nImport ListNotations.\nFrom TV Require Import SpanApi.ShapeSyntax SpanApi.Shapes.\nFrom TVGen Require Gen_span.",
+                            [("bad", "differing_rows Gen_span.src_shapes model_shapes")], tag="shapes")["bad"]
+        bad_rows = [] if bad_rows in ("nil", []) else list(bad_rows)
+        rows_ok = bad_rows == []
+        rep.count("shape-rows-read", text.count('\n  ; ("') + 1)
+        if not rows_ok:
+            ctx.log("methods whose shape differs from the model's table:", bad_rows)
+            rep.tie("source-shapes: the generated row of every method equals the model's row", False,
+                    "differing rows: %s" % ", ".join(bad_rows[:8]),
+                    {"rows": bad_rows, "generated": [l.strip() for l in text.split("\n") if any('("%s",' % b in l for b in bad_rows)][:8]})
+        else:
+            rep.tie("source-shapes: the generated row of every method equals the model's row", True, "%d rows" % (text.count('\n  ; ("') + 1))
+    except Exception as ex:  # noqa: BLE001
+        rep.tie("source-shapes: the generated row of every method equals the model's row", False, str(ex)[:300])
     # ---- leg A
-    rep.proof = coq_prove(ctx, "C03", ["theories/Properties/C03.vo"])
+    rep.proof = coq_prove(ctx, "C03", ["theories/Properties/C03.vo"],
+                          extra_obligations=[("Gen_span.src_shapes = model_shapes (row by row, differing_rows = [])", rows_ok)])
     # ---- cases
     rng = ctx.rng
     n = 1500 if not ctx.thorough() else 12000
